@@ -31,14 +31,30 @@ Definition simplify_code (vr : variant) (g : sargs) (N : list elemQ) (trace : li
       else if negb (match x_trace x with [] => true | _ => false end) then 4
       else if net_eqb (x_net x) out then 0 else 1
   end.
-(* oracle contracts met on this case: (subsets, in_series/in_parallel, no ground inside, chains on node names) *)
-Definition simplify_flags (vr : variant) (g : sargs) (N : list elemQ) (trace : list stage) : bool * bool * bool * bool :=
+(* oracle contracts met on this case: (subsets, in_series/in_parallel, no ground inside, chains on node names)
+   and the tags of the combine events at which a theorem precondition fails *)
+Definition simplify_flags (vr : variant) (g : sargs) (N : list elemQ) (trace : list stage) : bool * bool * bool * bool * list nat :=
   match simplifyQ vr g N trace with
-  | Err => (true, true, true, true)
-  | Ok x => (f_subsets (x_flags x), f_contract (x_flags x), f_ground (x_flags x), f_raw (x_flags x))
+  | Err => (true, true, true, true, [])
+  | Ok x => (f_subsets (x_flags x), f_contract (x_flags x), f_ground (x_flags x), f_raw (x_flags x), f_events (x_flags x))
   end.
+(* the other rewrites *)
+Definition rename_code (f : nat -> nat) (N out : list elemQ) : bool := net_eqb (rename_nodes f N) out.
+Fixpoint lookup_nat (m : list (nat * nat)) (n : nat) : nat :=
+  match m with [] => n | (a, b) :: m' => if Nat.eqb n a then b else lookup_nat m' n end.
+(* the map is injective on the nodes of the netlist and fixes the reference node *)
+Definition map_ok (m : list (nat * nat)) (N : list elemQ) : bool :=
+  let nodes := nodup Nat.eq_dec (flat_map (@enodes QcF) N) in
+  Nat.eqb (lookup_nat m 0) 0 && Nat.eqb (length (nodup Nat.eq_dec (map (lookup_nat m) nodes))) (length nodes).
+(* 0: the rewritten netlist is the model's; 5: it is the model's except that the
+   inductors' initial-current sources are printed as plain constants (read back
+   as DC sources); 1: neither *)
+Definition s_model_code (s : Qc) (N out : list elemQ) (d : nat) : nat :=
+  if net_eqb (@s_model QcF qc_eqb s KwS N d) out then 0
+  else if net_eqb (@s_model QcF qc_eqb s KwNone N d) out then 5 else 1.
+Definition noisy_kill_code (N out : list elemQ) (d : nat) : bool := net_eqb (renum_wires (kill_noise (noisy N d) 0) 0) (renum_wires out 0).
 
-Definition s_modelQ (s : Qc) := @s_model QcF qc_eqb s.
+Definition s_modelQ (s : Qc) := @s_model QcF qc_eqb s KwS.
 Definition switch_closedQ := @switch_closed QcF qlt.
 Definition switch_closed_specQ := @switch_closed_spec QcF qlt.
 Definition ElemQ (nm : name) (t : ety) (ns : list nat) (kw : skw) (x : Qc) (ic : option Qc) : elemQ := @Elem QcF nm t ns kw x ic.
